@@ -1,0 +1,9 @@
+//go:build verif && amd64
+
+package mathext
+
+import "golang.org/x/sys/cpu"
+
+func VerifHasBMI2() bool                  { return cpu.X86.HasBMI2 }
+func VerifPdepBMI2(x, mask uint64) uint64 { return pdepBMI2(x, mask) }
+func VerifPextBMI2(x, mask uint64) uint64 { return pextBMI2(x, mask) }
